@@ -24,6 +24,8 @@ def run(ctx):
             conds.append(xh.Cond(f"download one licence with --output, invoked from {layout}, --source={source}", "DL.py", "_dl", {"nreq": 1, "layout": layout, "source": source, "output": True}, timeout=tmo, twin="_dl_reach"))
         conds.append(xh.Cond(f"download two licences with --output (must be refused), invoked from {layout}", "DL.py", "_dl", {"nreq": 2, "layout": layout, "source": "none", "output": True}, timeout=tmo, twin="_dl_reach"))
     conds.append(xh.Cond("download_license: only HTTP status 200 yields a text, every other final status (100-599) is a URLError", "DL.py", "_status", {}, timeout=tmo, twin="_status_reach"))
+    for first in (0, 4):
+        conds.append(xh.Cond(f"download {IDS[first]} + any second licence from a VCS root that is itself named LICENSES (text goes to <root>/LICENSES/)", "DL.py", "_dl", {"nreq": 2, "layout": "vcs-root-named-licenses", "source": "none", "first": first}, timeout=tmo, twin="_dl_reach"))
     ctx.functions_encoded = [
         "reuse.download.download_license (status handling; urlopen modelled: response for 2xx, HTTPError otherwise)",
         "reuse.cli.download.download (command body: '+' stripping, --output rule, per-licence error handling, exit status)",
@@ -34,7 +36,7 @@ def run(ctx):
         "request": "1-2 identifiers from {MIT, MIT+, GPL-3.0, Foo, LicenseRef-x, LicenseRef-x+}; network outcome per identifier in {text, URLError}",
         "status": "final HTTP status any integer in 100..599 (symbolic)",
         "pre-state": "LICENSES/ absent or present; target file of each requested licence pre-existing or not",
-        "options": "--output given or not; --source in {none, file, directory holding the text, directory without it}; invoked from the root or from inside LICENSES/ (root named LICENSES, no VCS)",
+        "options": "--output given or not; --source in {none, file, directory holding the text, directory without it}; invoked from the root or from inside LICENSES/ (root named LICENSES, no VCS), or from a VCS-detected root that is itself named LICENSES",
     }
     ctx.stubs = ["pathlib.Path (exists, is_dir, mkdir, touch, open, cwd) and shutil.copyfile replaced by a dict-backed model in which a file exists from the moment it is opened for writing", "download_license replaced by the network stub (documented contract: returns the text or raises URLError)", "click.echo silenced"]
     ctx.outside = ["real urllib behaviour (partial reads, other exception types, redirects)", "--all (its input, report.missing_licenses, is C06's subject)", "more than two identifiers"]
